@@ -98,4 +98,6 @@ def check(configs):
 
 QUICK = [((8, 8, 8), 'F', 0, -1), ((8, 8, 8), 'W', 0, -1), ((8, 8, 8), 'V', 0, -1), ((16, 4, 6), 'F', True, -1),
          ((16, 3, 3), 'F', True, -1), ((16, 3, 3), 'W', 21, -1), ((12, 6, 4), 'F', 2, 1), ((5, 16, 2), 'V', 312, -1),
-         ((8, 16, 4), 'F', 123, 2)]
+         ((8, 16, 4), 'F', 123, 2),
+         # every single-digit pattern as an explicit integer (1 is not True), and the limit 0
+         ((32, 8, 8), 'V', 1, -1), ((8, 16, 4), 'W', 3, -1), ((8, 8, 8), 'F', 2, 0)]
